@@ -140,6 +140,9 @@ func newPkg(pkg *packages.Package, u *Universe) Package {
 				}
 
 				if named != nil {
+					// receiver of generic type is instantiated type, should group by the declared one
+					named = named.Origin()
+
 					p.methods[named] = append(p.methods[named], x)
 				}
 			} else {
